@@ -507,7 +507,25 @@ var replayMu sync.Mutex
 
 // nativeReplay runs the harness natively under the replay file. It returns
 // (reproduced, output).
+// nativeReplay re-runs a counterexample natively. Go randomises map
+// iteration order natively (the engine uses insertion or reverse order), so
+// a counterexample that depends on it may need several attempts.
 func nativeReplay(path string) (bool, string) {
+	var out string
+	for try := 0; try < 8; try++ {
+		ok, o := nativeReplayOnce(path)
+		out = o
+		if ok {
+			return true, out
+		}
+		if strings.Contains(o, "VF-REPLAY-NOHARNESS") || strings.Contains(o, "[build failed]") || strings.Contains(o, "VF-REPLAY-ERROR") {
+			break
+		}
+	}
+	return false, out
+}
+
+func nativeReplayOnce(path string) (bool, string) {
 	replayMu.Lock()
 	defer replayMu.Unlock()
 	data, err := os.ReadFile(path)
